@@ -48,7 +48,7 @@ def check(ctx):
     ctx.t('native-enum', secs)
     line = (out.strip().splitlines() or [''])[-1]
     name = 'native/api-load-lines-and-probe'
-    bound = '%d documents + every single-byte deletion, newline insertion and truncation of each' % len(docs)
+    bound = '%d documents + every single-byte deletion, newline insertion and truncation of each + 5000-byte fillers (comment, blanks, empty lines, 60 comments) between xml header and root' % len(docs)
     if line.startswith('OK'):
         ctx.add(Obligation(ctx.prop, name, 'native-eval', 'bounded', 'discharged', seconds=secs, bound=bound,
                            detail='load_buffer strict+lenient and check_buffer: no panic; every error/warning line in 1..=1+newlines; a buffer that loads is accepted by check_buffer [%s inputs]' % line[3:]))
